@@ -237,6 +237,8 @@ class ModuleEval:
             return bv
         if t == "nc":
             raise ModelError("no-connect used inside an expression")
+        if t in ("orphan", "foreign", "orphan_bun", "foreign_bun", "pref_orphan", "pref_foreign"):
+            raise ModelError("object owned by another module or by none (%s)" % t)
         raise ModelError("unknown expression %r" % (t,))
 
     # -- connections ----------------------------------------------------
@@ -322,6 +324,8 @@ class ModuleEval:
 
 
 def check_dag(spec):
+    if spec.get("cycle"):
+        raise ModelError("circular instantiation")
     n = len(spec["modules"])
     state = {}
 
